@@ -129,6 +129,12 @@ def run_pool(engine, prop, tier, seed, total, budget_s, workers, block=1500):
 
     def spawn():
         nonlocal next_start
+        # Runs that end in the CPU budget cost seconds each, crashes cost a process each: once enough of them are on record
+        # the verdict of the check is settled (exit 1 after the gate) and going through the rest of the index space only
+        # burns time.  (On a tree where the property holds neither counter moves.)
+        if res['verdicts'].get('HANG', 0) + res['hangs'] >= 24 or res['crashes'] >= 3000:
+            res['stopped_early'] = True
+            return None
         if pending:
             s, c = pending.pop()
         else:
